@@ -298,6 +298,7 @@ def generate():
     parts.append("Definition etdrk_takes_real : list (nat * nat * bool) :=\n  [" + "; ".join(f"({p}, {j}, {'true' if f else 'false'})" for p, j, f in flags) + "]%nat.")
     # order dispatch in BaseStepper.__init__
     parts.append(translate_dispatch())
+    parts.append(check_base_plumbing())
     return "\n".join(parts) + "\n"
 
 
@@ -330,6 +331,51 @@ def translate_dispatch():
     body = " ".join(f"| {o}%Z => Some {c}%nat" for o, c in table)
     return ("\n(* BaseStepper.__init__: order -> ETDRK class index; None = NotImplementedError *)\n"
             f"Definition order_dispatch (order : Z) : option nat :=\n  match order with {body} | _ => None end.\n")
+
+
+def check_base_plumbing():
+    """BaseStepper: everything around the integrator is compared with its expected text - the derivative operator is built from the
+    stepper's own (num_spatial_dims, domain_extent, num_points), both builders receive it, step = ifft . step_fourier . fft with the
+    stepper's own grid, step_fourier delegates to the integrator, __call__ checks the shape and calls step"""
+    def same(node, text):
+        return ast.unparse(node) == ast.unparse(ast.parse(text).body[0])
+    cls = find_class(ast.parse(open(f"{REPO}/exponax/_base_stepper.py").read()), "BaseStepper")
+    init = [s for s in find_func(cls.body, "__init__").body if not (isinstance(s, ast.Expr) and isinstance(s.value, ast.Constant))]
+    want = ["self.num_spatial_dims = num_spatial_dims", "self.domain_extent = domain_extent", "self.num_points = num_points", "self.dt = dt",
+            "self.num_channels = num_channels", "self.dx = domain_extent / num_points",
+            "derivative_operator = build_derivative_operator(num_spatial_dims, domain_extent, num_points)",
+            "linear_operator = self._build_linear_operator(derivative_operator)",
+            "single_channel_shape = (1,) + wavenumber_shape(self.num_spatial_dims, self.num_points)",
+            "multi_channel_shape = (self.num_channels,) + wavenumber_shape(self.num_spatial_dims, self.num_points)"]
+    if len(init) != 13 or not all(same(a, t) for a, t in zip(init, want)):
+        raise TranslationError("BaseStepper.__init__ head: " + repr([ast.unparse(x) for x in init[:10]])[:400])
+    g = init[10]
+    if not (isinstance(g, ast.If) and ast.unparse(g.test) == "linear_operator.shape not in (single_channel_shape, multi_channel_shape)"
+            and len(g.body) == 1 and isinstance(g.body[0], ast.Raise) and not g.orelse):
+        raise TranslationError("BaseStepper.__init__: operator shape guard")
+    if not same(init[11], "nonlinear_fun = self._build_nonlinear_fun(derivative_operator)"):
+        raise TranslationError("BaseStepper.__init__: nonlinear function")
+    if not (isinstance(init[12], ast.If) and ast.unparse(init[12].test) == "order == 0"):
+        raise TranslationError("BaseStepper.__init__: dispatch position")
+
+    def body(name):
+        return [s for s in find_func(cls.body, name).body if not (isinstance(s, ast.Expr) and isinstance(s.value, ast.Constant))]
+    st = body("step")
+    ws = ["u_hat = fft(u, num_spatial_dims=self.num_spatial_dims)", "u_next_hat = self.step_fourier(u_hat)",
+          "u_next = ifft(u_next_hat, num_spatial_dims=self.num_spatial_dims, num_points=self.num_points)", "return u_next"]
+    sf = body("step_fourier")
+    ca = body("__call__")
+    if len(st) != 4 or not all(same(a, t) for a, t in zip(st, ws)):
+        raise TranslationError("BaseStepper.step")
+    if len(sf) != 1 or not same(sf[0], "return self._integrator.step_fourier(u_hat)"):
+        raise TranslationError("BaseStepper.step_fourier")
+    if not (len(ca) == 3 and same(ca[0], "expected_shape = (self.num_channels,) + spatial_shape(self.num_spatial_dims, self.num_points)")
+            and isinstance(ca[1], ast.If) and ast.unparse(ca[1].test) == "u.shape != expected_shape" and isinstance(ca[1].body[0], ast.Raise)
+            and same(ca[2], "return self.step(u)")):
+        raise TranslationError("BaseStepper.__call__")
+    return ("\n(* BaseStepper plumbing compared with its expected text: derivative operator from the stepper's own grid, both builders receive it,\n"
+            "   step = ifft . step_fourier . fft, step_fourier = the integrator's, __call__ = shape guard then step *)\n"
+            "Definition base_stepper_plumbing_checked : bool := true.\n")
 
 
 def run():
